@@ -101,182 +101,175 @@ def _names(ctx, f):
     return U, s_, VH, c0, c1
 
 
-def check_absorb(prog, ctx):
-    rid = "R13.2"
+class STok:
+    """opaque block with a concrete shape: slicing, reshape and products keep track of shapes and provenance"""
+
+    _abstract = True
+
+    def __init__(self, term, shape):
+        self.term = term
+        self.shape = tuple(shape)
+
+    @property
+    def size(self):
+        n = 1
+        for d in self.shape:
+            n *= d
+        return n
+
+    def __getitem__(self, k):
+        ks = k if isinstance(k, tuple) else (k,)
+        shape = []
+        for d, sl in zip(self.shape, ks):
+            if isinstance(sl, slice):
+                shape.append(len(range(*sl.indices(d))))
+            else:
+                raise TypeError("integer index on an abstract block")
+        shape += list(self.shape[len(ks):])
+        return STok(("slice", self.term, tuple((sl.start, sl.stop, sl.step) for sl in ks)), shape)
+
+    def reshape(self, shape):
+        return STok(("reshape", self.term, tuple(shape)), [self.size if d == -1 else d for d in shape])
+
+    def __mul__(self, o):
+        return STok(("mul", self.term, getattr(o, "term", o)), self.shape)
+
+    def __eq__(self, o):
+        return isinstance(o, STok) and self.term == o.term and self.shape == o.shape
+
+    def __hash__(self):
+        return hash((self.term, self.shape))
+
+    def __repr__(self):
+        return f"STok{self.term}{self.shape}"
+
+
+def check_truncation_semantics(prog, ctx):
+    """R13.2-R13.4 by abstract evaluation: svd_truncated is evaluated (checker's evaluator) with the block SVD replaced
+    by shaped tokens, no cutoff and a bond limit (pure integer bookkeeping): for every charge the kept count must be the
+    same on U's columns, s, VH's rows and both bond charge tables; removed charges vanish everywhere; the counts add up to
+    the limit; each absorb option scales the right factor along its bond axis."""
+    import itertools
+
+    from engine.absarray import evaluator, make_index
+    from engine.minieval import Obj, Raised, Unsupported
+
     f = prog.func("symmray.linalg:svd_truncated")
-    U, S, VH, c0, c1 = _names(ctx, f)
-    chain = None
-    for n in ast.walk(f.node):
-        if isinstance(n, ast.If) and src(n.test).startswith("absorb in ("):
-            parent_is_else = any(isinstance(p, ast.If) and p.orelse == [n] for p in ast.walk(f.node))
-            if not parent_is_else:
-                chain = n
-    ctx.need(chain is not None, "svd_truncated: absorb switch not found")
-    branches = []
-    cur = chain
-    default = None
-    while True:
-        branches.append(cur)
-        if len(cur.orelse) == 1 and isinstance(cur.orelse[0], ast.If):
-            cur = cur.orelse[0]
-        else:
-            default = cur.orelse
-            break
-    labels = {}
-    for b in branches:
-        vals = tuple(e.value if isinstance(e, ast.Constant) else (-(e.operand.value) if isinstance(e, ast.UnaryOp) else None)
-                     for e in b.test.comparators[0].elts)
-        labels[vals] = b
-    want = {(-1, "left"), (1, "right"), (0, "both")}
-    ctx.check(set(labels) == want, rid, f, chain, f"absorb branches {sorted(map(str, labels))}",
-              "absorb switch has exactly the branches (-1|'left'), (1|'right'), (0|'both')")
-    ctx.check(bool(default) and isinstance(default[0], ast.Raise), rid, f, chain, "default", "any other absorb value raises")
+    arr = prog.cls("AbelianArray")
+    vec = prog.cls("BlockVector")
 
-    def stores(b):
-        out = {}
-        for s in b.body:
-            if isinstance(s, ast.Assign) and isinstance(s.targets[0], ast.Subscript):
-                out[src(s.targets[0].value)] = s
-        return out
+    def factors(sectors, sizes, rows=4):
+        ub = {sec: STok(("U", sec), (rows, sizes[sec[1]])) for sec in sectors}
+        sb = {sec[1]: STok(("s", sec[1]), (sizes[sec[1]],)) for sec in sectors}
+        vb = {(sec[1], sec[1]): STok(("V", sec[1]), (sizes[sec[1]], 6)) for sec in sectors}
+        bond = {c: sizes[c] for c in sorted({sec[1] for sec in sectors})}
+        rowi = make_index(prog, {sec[0]: rows for sec in sectors}, False)
+        coli = make_index(prog, {c: 6 for c in bond}, True)
+        U = Obj(arr, {"_blocks": ub, "_indices": (rowi, make_index(prog, bond, True)), "_charge": 0, "_symmetry": None})
+        S = Obj(vec, {"_blocks": sb})
+        V = Obj(arr, {"_blocks": vb, "_indices": (make_index(prog, bond, False), coli), "_charge": 0, "_symmetry": None})
+        return U, S, V
 
-    def scaled(s, factor, shape):
-        v = s.value
-        if not (isinstance(v, ast.BinOp) and isinstance(v.op, ast.Mult) and src(v.left) == src(s.targets[0])):
-            return False
-        r = v.right
-        if not (isinstance(r, ast.Call) and isinstance(r.func, ast.Attribute) and r.func.attr == "reshape"):
-            return False
-        return src(r.func.value) == factor and src(r.args[0]) == shape
+    def sqrt(name, t, like=None):
+        return STok((name, t.term), t.shape)
 
-    if (-1, "left") in labels:
-        st = stores(labels[(-1, "left")])
-        ok = set(st) == {f"{U}.blocks"} and scaled(st[f"{U}.blocks"], f"{S}.blocks[{c1}]", "(1, -1)")
-        ctx.check(ok, rid, f, labels[(-1, "left")], "left", "absorb left: only U is scaled, by s along U's bond (second) axis")
-    if (1, "right") in labels:
-        st = stores(labels[(1, "right")])
-        ok = set(st) == {f"{VH}.blocks"} and scaled(st[f"{VH}.blocks"], f"{S}.blocks[{c1}]", "(-1, 1)")
-        ctx.check(ok, rid, f, labels[(1, "right")], "right", "absorb right: only VH is scaled, by s along VH's bond (first) axis")
-    if (0, "both") in labels:
-        b = labels[(0, "both")]
-        st = stores(b)
-        sq = [s for s in b.body if isinstance(s, ast.Assign) and isinstance(s.value, ast.Call) and src(s.value.func) == "ar.do"
-              and src(s.value.args[0]) == "'sqrt'" and src(s.value.args[1]) == f"{S}.blocks[{c1}]"]
-        ok = len(sq) == 1 and set(st) == {f"{U}.blocks", f"{VH}.blocks"}
-        if ok:
-            var = src(sq[0].targets[0])
-            ok = scaled(st[f"{U}.blocks"], var, "(1, -1)") and scaled(st[f"{VH}.blocks"], var, "(-1, 1)")
-        ctx.check(ok, rid, f, b, "both", "absorb both: U and VH are each scaled by sqrt(s) along their bond axis")
-    # absorbed result drops s, un-absorbed returns it
-    rets = [r for r in walk_own(f.node) if isinstance(r, ast.Return)]
-    srcs = sorted(src(r.value) for r in rets)
-    ctx.check(srcs == sorted([f"({U}, None, {VH})", f"({U}, {S}, {VH})"]), rid, f, f.node, f"returns {srcs}",
-              "returns (U, s, VH) when absorb is None and (U, None, VH) otherwise")
-    ctx.minimum(rid, 6, "switch, default, three branches, returns")
-
-
-def check_order(prog, ctx):
-    rid = "R13.3"
-    f = prog.func("symmray.linalg:svd_truncated")
-    U, S, VH, c0, c1 = _names(ctx, f)
-    # consumption: for (c0, c1), n_chi in zip(U.sectors, sub_max_bonds)
-    loops = [n for n in walk_own(f.node) if isinstance(n, ast.For) and isinstance(n.iter, ast.Call) and src(n.iter.func) == "zip"]
-    ctx.need(len(loops) == 1, "svd_truncated: zip loop over sectors and counts not found")
-    za, zb = [src(a) for a in loops[0].iter.args]
-    ctx.check(za == f"{U}.sectors", rid, f, loops[0], src(loops[0].iter), "counts are consumed along U.sectors (no re-ordering)")
-    # production: every definition of the counts iterates s.blocks.values() in native order
-    defs = [a for a in ast.walk(f.node) if isinstance(a, ast.Assign) and src(a.targets[0]) == zb]
-    ctx.need(len(defs) == 2, f"svd_truncated: expected two definitions of {zb}")
-    for d in defs:
-        v = d.value
-        if isinstance(v, ast.ListComp):
-            it = src(v.generators[0].iter)
-            ctx.check(it == f"{S}.blocks.values()", rid, f, d, it, "per-sector counts iterate the singular-value blocks in stored order")
-        else:
-            # calc_sub_max_bonds(sector_sizes, max_bond) with sector_sizes = tuple(map(ar.size, s.blocks.values()))
-            ok = isinstance(v, ast.Call) and src(v.func) == "calc_sub_max_bonds"
-            szdef = [a for a in ast.walk(f.node) if isinstance(a, ast.Assign) and ok and src(a.targets[0]) == src(v.args[0])]
-            ok = ok and len(szdef) == 1 and src(szdef[0].value) == f"tuple(map(ar.size, {S}.blocks.values()))"
-            ctx.check(ok, rid, f, d, src(d)[:80], "proportional split is computed from the block sizes in stored order")
-    # co-population: u_blocks and s_store are filled in the same loop iteration of svd
+    cases = [
+        ([(0, 1), (1, 0)], {1: 5, 0: 2}),           # column charges in descending insertion order, unequal sizes
+        ([(0, 0), (1, 1)], {0: 3, 1: 3}),
+        ([(2, 2), (0, 0), (1, 1)], {2: 1, 0: 6, 1: 2}),
+        ([(1, 2), (0, 1), (2, 0)], {2: 4, 1: 1, 0: 3}),
+    ]
+    bad = {"R13.3": None, "R13.4": None, "R13.2": None}
+    n = 0
+    for sectors, sizes in cases:
+        total = sum(sizes.values())
+        for max_bond in list(range(1, total + 2)) + [-1]:
+            for absorb in (None, -1, 0, 1, "left", "both", "right"):
+                U, S, V = factors(sectors, sizes)
+                ev = evaluator(prog, extra={"svd": lambda x, _r=(U, S, V): _r, "ar.size": lambda t: t.size, "ar.do": sqrt,
+                                            "ar.shape": lambda t: t.shape})
+                try:
+                    res = ev.call(f, [U], {"cutoff": -1.0, "max_bond": max_bond, "absorb": absorb})
+                except Unsupported as e:
+                    raise AnalysisError(f"svd_truncated outside the evaluable sub-language: {e}")
+                except (Raised, KeyError, TypeError, AttributeError) as e:
+                    bad["R13.4"] = bad["R13.4"] or f"max_bond={max_bond} absorb={absorb}: {type(e).__name__}: {getattr(e, 'what', e)}"
+                    continue
+                n += 1
+                Ur, Sr, Vr = res
+                ucm = Ur.fields["_indices"][1].fields["_chargemap"]
+                vcm = Vr.fields["_indices"][0].fields["_chargemap"]
+                kept = {}
+                for sec, blk in Ur.fields["_blocks"].items():
+                    kept[sec[1]] = blk.shape[1]
+                where = f"sectors={sectors} sizes={sizes} max_bond={max_bond}"
+                want_total = total if max_bond < 0 else min(max_bond, total)
+                if sum(kept.values()) != want_total:
+                    bad["R13.3"] = bad["R13.3"] or f"{where}: {sum(kept.values())} values kept in total ({kept}), the limit prescribes {want_total}"
+                if any(k > sizes[c] or k <= 0 for c, k in kept.items()):
+                    bad["R13.3"] = bad["R13.3"] or f"{where}: per-charge counts {kept} exceed the available {sizes} or are empty"
+                vrows = {sec[0]: blk.shape[0] for sec, blk in Vr.fields["_blocks"].items()}
+                if ucm != kept or vcm != kept or vrows != kept or list(ucm) != sorted(ucm):
+                    bad["R13.4"] = bad["R13.4"] or (f"{where}: U columns {kept}, VH rows {vrows}, U bond table {ucm}, VH bond table {vcm} "
+                                                    "must all agree (sorted by charge)")
+                if absorb is None:
+                    srows = {c: blk.shape[0] for c, blk in Sr.fields["_blocks"].items()}
+                    if srows != kept:
+                        bad["R13.4"] = bad["R13.4"] or f"{where}: singular value counts {srows} != {kept}"
+                else:
+                    if Sr is not None:
+                        bad["R13.2"] = bad["R13.2"] or f"absorb={absorb} still returns the singular values"
+                    for sec, blk in Ur.fields["_blocks"].items():
+                        c = sec[1]
+                        t = blk.term
+                        scaled_u = t[0] == "mul"
+                        vt = Vr.fields["_blocks"][(c, c)].term
+                        scaled_v = vt[0] == "mul"
+                        want_u = absorb in (-1, "left", 0, "both")
+                        want_v = absorb in (1, "right", 0, "both")
+                        if scaled_u != want_u or scaled_v != want_v:
+                            bad["R13.2"] = bad["R13.2"] or f"absorb={absorb}: U scaled={scaled_u}, VH scaled={scaled_v}"
+                            continue
+                        for (is_scaled, term, want_shape) in ((scaled_u, t, (1, -1)), (scaled_v, vt, (-1, 1))):
+                            if not is_scaled:
+                                continue
+                            factor = term[2]
+                            ok = factor[0] == "reshape" and factor[2] == want_shape
+                            inner = factor[1] if ok else None
+                            if ok and absorb in (0, "both"):
+                                ok = inner[0] == "sqrt"
+                                inner = inner[1] if ok else None
+                            ok = ok and inner[0] == "slice" and inner[1] == ("s", c)
+                            if not ok:
+                                bad["R13.2"] = bad["R13.2"] or f"absorb={absorb}: factor {factor} is not the (sqrt of the) kept singular values of charge {c} along the bond axis {want_shape}"
+        # unknown absorb value
+        U, S, V = factors(sectors, sizes)
+        ev = evaluator(prog, extra={"svd": lambda x, _r=(U, S, V): _r, "ar.size": lambda t: t.size, "ar.do": sqrt})
+        try:
+            ev.call(f, [U], {"cutoff": -1.0, "max_bond": 2, "absorb": "sideways"})
+            bad["R13.2"] = bad["R13.2"] or "an unknown absorb value is accepted silently"
+        except Raised:
+            pass
+        except Unsupported as e:
+            raise AnalysisError(f"svd_truncated outside the evaluable sub-language: {e}")
+    ctx.check(bad["R13.3"] is None, "R13.3", f, f.node, "counts",
+              f"without a cutoff the kept counts add up to the bond limit and each stays within its own charge's values, whatever the "
+              f"order in which the sectors were produced ({n} evaluations)" + ("" if bad["R13.3"] is None else f" — witness: {bad['R13.3']}"))
+    ctx.check(bad["R13.4"] is None, "R13.4", f, f.node, "joint truncation",
+              "U's columns, s, VH's rows and both bond charge tables carry the same count for every kept charge; removed charges vanish everywhere"
+              + ("" if bad["R13.4"] is None else f" — witness: {bad['R13.4']}"))
+    ctx.check(bad["R13.2"] is None, "R13.2", f, f.node, "absorb",
+              "absorb left / right / both scales U along (1,-1), VH along (-1,1), both by sqrt; None returns s; anything else raises"
+              + ("" if bad["R13.2"] is None else f" — witness: {bad['R13.2']}"))
+    # the block svd itself fills U, s and V for each input block in one loop iteration (same insertion order)
     g = prog.func("symmray.linalg:svd")
-    loops = [n for n in walk_own(g.node) if isinstance(n, ast.For) and src(n.iter) == "x.blocks.items()"]
-    ctx.need(len(loops) == 1, "svd: loop over x.blocks.items() not found")
-    stored = {}
-    for s in loops[0].body:
-        if isinstance(s, ast.Assign) and isinstance(s.targets[0], ast.Subscript):
-            stored[src(s.targets[0].value)] = src(s.targets[0].slice)
-    ctx.check({"u_blocks", "s_store", "v_blocks"} <= set(stored), rid, g, loops[0], str(sorted(stored)),
-              "svd fills the U blocks, the singular values and the V blocks in one loop iteration (same insertion order)")
-    # U and s are built from exactly those dicts
-    ctx.check(any(isinstance(c, ast.Call) and src(c.func) == "BlockVector" and src(c.args[0]) == "s_store" for c in ast.walk(g.node)),
-              rid, g, g.node, "BlockVector(s_store)", "the singular values vector is built from the co-populated dict")
-    cb = prog.func("symmray.linalg:calc_sub_max_bonds")
-    srt = [c for c in ast.walk(cb.node) if isinstance(c, ast.Call) and src(c.func) in ("sorted", "reversed")]
-    ctx.check(not srt, rid, cb, cb.node, "no reordering", "calc_sub_max_bonds returns counts in the order of its input sizes")
-    rets = [r for r in walk_own(cb.node) if isinstance(r, ast.Return)]
-    ctx.check(all(src(r.value) in ("sizes", "tuple(sub_max_bonds)") for r in rets), rid, cb, cb.node, "returns",
-              "calc_sub_max_bonds returns either the sizes themselves or the per-position counts")
-    ctx.minimum(rid, 6, "consumption, two productions, co-population, vector, helper")
+    loops = [n_ for n_ in walk_own(g.node) if isinstance(n_, ast.For) and src(n_.iter).endswith(".blocks.items()")]
+    ok = len(loops) == 1 and sum(1 for s_ in ast.walk(loops[0]) if isinstance(s_, ast.Assign) and isinstance(s_.targets[0], ast.Subscript)) >= 3
+    ctx.check(ok, "R13.3", g, g.node, "co-population", "svd fills the U blocks, the singular values and the V blocks in one loop over the input blocks")
 
 
 def check_together(prog, ctx):
-    rid = "R13.4"
-    f = prog.func("symmray.linalg:svd_truncated")
-    U, S, VH, c0, c1 = _names(ctx, f)
-    loops = [n for n in walk_own(f.node) if isinstance(n, ast.For) and isinstance(n.iter, ast.Call) and src(n.iter.func) == "zip"]
-    loop = loops[0]
-    cnt = src(loop.target.elts[1])
-    # removal branch
-    rm = [n for n in loop.body if isinstance(n, ast.If) and src(n.test) == f"{cnt} == 0"]
-    ctx.need(len(rm) == 1, "svd_truncated: branch removing an empty sector not found")
-    pops = sorted(src(s.value) for s in rm[0].body if isinstance(s, ast.Expr))
-    ctx.check(pops == sorted([f"{U}.blocks.pop(({c0}, {c1}))", f"{VH}.blocks.pop(({c1}, {c1}))", f"{S}.blocks.pop({c1})"]), rid, f, rm[0], str(pops),
-              "a sector with nothing kept is removed from U, s and VH in the same branch")
-    ctx.check(isinstance(rm[0].body[-1], ast.Continue), rid, f, rm[0], "continue", "a removed sector gets no bond charge entry")
-    # slices
-    sl = {}
-    for s in loop.body:
-        if isinstance(s, ast.Assign) and isinstance(s.targets[0], ast.Subscript) and isinstance(s.value, ast.Subscript):
-            sl[src(s.targets[0])] = (src(s.value.value), src(s.value.slice))
-    want = {"U.blocks[c0, c1]": ("U.blocks[c0, c1]", f"(slice(None, None, None), slice(None, {cnt}, None))"),
-            "s.blocks[c1]": ("s.blocks[c1]", f"slice(None, {cnt}, None)"),
-            "VH.blocks[c1, c1]": ("VH.blocks[c1, c1]", f"(slice(None, {cnt}, None), slice(None, None, None))")}
-    got = {}
-    for s in loop.body:
-        if isinstance(s, ast.Assign) and isinstance(s.targets[0], ast.Subscript) and isinstance(s.value, ast.Subscript):
-            got[src(s.targets[0])] = (src(s.value.value), _slice_shape(s.value.slice, cnt))
-    want2 = {f"{U}.blocks[{c0}, {c1}]": (f"{U}.blocks[{c0}, {c1}]", (":", ":n")), f"{S}.blocks[{c1}]": (f"{S}.blocks[{c1}]", (":n",)),
-             f"{VH}.blocks[{c1}, {c1}]": (f"{VH}.blocks[{c1}, {c1}]", (":n", ":"))}
-    ctx.check(got == want2, rid, f, loop, str(got),
-              "U keeps the first n columns, s the first n values, VH the first n rows of the same sector, same n")
-    cm = [s for s in loop.body if isinstance(s, ast.Assign) and isinstance(s.targets[0], ast.Subscript)
-          and src(s.targets[0].slice) == c1 and isinstance(s.targets[0].value, ast.Name)
-          and not isinstance(s.value, ast.Subscript)]
-    ctx.check(len(cm) == 1 and src(cm[0].value) == cnt, rid, f, loop, "chargemap entry", "the bond charge table records n for that charge")
-    # both modify calls use the same table on the bond index of each factor
-    mods = {src(c.func): c for c in walk_own(f.node) if isinstance(c, ast.Call) and src(c.func) in (f"{U}.modify", f"{VH}.modify")}
-    ok = set(mods) == {f"{U}.modify", f"{VH}.modify"} and len(cm) == 1
-    if ok:
-        T = src(cm[0].targets[0].value)
-        u = src(mods[f"{U}.modify"].keywords[0].value).replace(" ", "")
-        v = src(mods[f"{VH}.modify"].keywords[0].value).replace(" ", "")
-        ok = u == f"({U}.indices[0],{U}.indices[1].copy_with(chargemap={T}))" and \
-            v == f"({VH}.indices[0].copy_with(chargemap={T}),{VH}.indices[1])"
-    ctx.check(ok, rid, f, f.node, "bond tables", "the same new bond charge table is installed on U's second and VH's first index")
-    ctx.minimum(rid, 5, "removal, continue, slices, table entry, modify pair")
-
-
-def _slice_shape(sl, cnt):
-    def one(x):
-        if isinstance(x, ast.Slice):
-            lo = src(x.lower) if x.lower else ""
-            hi = src(x.upper) if x.upper else ""
-            return f"{lo}:{'n' if hi == cnt else hi}"
-        return src(x)
-
-    if isinstance(sl, ast.Tuple):
-        return tuple(one(e) for e in sl.elts)
-    return (one(sl),)
+    check_truncation_semantics(prog, ctx)
 
 
 def run(prog, ctx):
@@ -286,6 +279,4 @@ def run(prog, ctx):
              "co-populated in svd; no one-sided re-ordering")
     ctx.rule("R13.4", "U, s and VH are truncated with the same count and removed together; one new bond table goes to both factors")
     check_negated_index(prog, ctx)
-    check_absorb(prog, ctx)
-    check_order(prog, ctx)
-    check_together(prog, ctx)
+    check_truncation_semantics(prog, ctx)
